@@ -20,6 +20,7 @@ mod c11;
 mod c12;
 mod c13;
 mod c14;
+mod c16;
 mod c17;
 mod c18;
 mod c19;
@@ -90,6 +91,7 @@ fn main() {
         "c13_workspace" => c13::workspace(thorough),
         "c14_normalize" => c14::normalize(thorough),
         "c14_package" => c14::package(thorough),
+        "c16_cleanup" => c16::cleanup(thorough),
         "c17_argv" => c17::argv_roundtrip(thorough),
         "c17_glue" => c17::glue(thorough),
         "c18_inventory" => c18::inventory(thorough),
